@@ -25,6 +25,10 @@ type Deadline struct {
 
 	// +checklocks:m
 	err error
+
+	// at is the deadline the timer is currently armed for; zero if none.
+	// +checklocks:m
+	at time.Time
 }
 
 // Done returns a channel. The Deadline will send an error on the channel
@@ -62,7 +66,23 @@ func (d *Deadline) Err() error {
 }
 
 func (d *Deadline) timeout() {
-	d.Cancel(os.ErrDeadlineExceeded)
+	d.m.Lock()
+	defer d.m.Unlock()
+
+	// A timer that had already fired when SetDeadline moved or cleared the
+	// deadline cannot be stopped any more and still gets here: it must not
+	// expire the new deadline.
+	if d.at.IsZero() || time.Now().Before(d.at) {
+		return
+	}
+
+	d.err = os.ErrDeadlineExceeded
+	select {
+	case <-d.ch:
+		break
+	default:
+		close(d.ch)
+	}
 }
 
 // SetDeadline sets a new time at which the deadline will expire.
@@ -92,6 +112,7 @@ func (d *Deadline) SetDeadline(t time.Time) error {
 		break
 	}
 
+	d.at = t
 	if t.IsZero() {
 		return nil
 	}
